@@ -150,7 +150,19 @@ pub fn run(args: &Args, out: &mut Out) {
             }
         }
         src.push_str(" = ");
-        src.push_str(&(0..nt).map(|i| i.to_string()).collect::<Vec<_>>().join(", "));
+        // the number of values is independent of the number of targets: every target is judged, whether or
+        // not a value stands opposite it (`a.x, b.y = ...`, `a.x, b.y = 1, 2, 3`)
+        let nv = match rng.below(4) {
+            0 => 1,
+            1 => 1 + rng.below(nt + 1),
+            _ => nt,
+        };
+        let mut values: Vec<String> = (0..nv).map(|i| i.to_string()).collect();
+        if rng.chance(1, 3) {
+            *values.last_mut().unwrap() = String::from(if rng.chance(1, 2) { "..." } else { "nil" });
+        }
+        out.bump(if nv < nt { "assign_fewer_values" } else if nv > nt { "assign_more_values" } else { "assign_equal_values" });
+        src.push_str(&values.join(", "));
         src.push('\n');
         // a read
         let mut rp = gen_path(&mut rng, &["a", "b", "c", "d"], 3);
